@@ -199,6 +199,10 @@ def invoke(desc, side, ops, kw):
         return f(ops[0], *args, **kw)
     if cat == "nograd":
         return getattr(np, name)(*ops, *args, **kw)
+    if cat == "umethod":
+        # a method (.outer/.reduce/.accumulate) of a NumPy ufunc that MyGrad re-exports without a derivative
+        u, m = name.split(".")
+        return getattr(getattr(np, u), m)(*ops, *args, **kw)
     if cat == "getitem":
         return ops[0][_index(args[0])]
     if cat == "attr":
@@ -910,6 +914,30 @@ F2_WITNESSES = [
                {"dtype": "f32", "out": od("tensor", "f64", (2, 3), const=True, fill=0)},
                {"dtype": "f16", "out": od("tensor", "f64", (2, 3), fill=0)},
                {"where": od("tensor", "bool", (2, 3)), "out": od("tensor", "f64", (2, 3), fill=0)})
+] + [
+    # methods of the ufuncs that act on the tensors' arrays (comparison/logical ufuncs; the constant-only ones)
+    {"cat": "umethod", "name": f"{u}.outer", "route": "np", "operands": [od("tensor", da, (3,), const=c), od(kb, db, sb, const=c)],
+     "args": [], "kwargs": {}, "track": "both"}
+    for u, c in (("less", None), ("greater_equal", None), ("equal", None), ("logical_and", None), ("logical_xor", None),
+                 ("floor_divide", True), ("remainder", True), ("fmod", True))
+    for da, kb, db, sb in (("f64", "tensor", "f64", (3,)), ("i32", "array", "f32", (2,)), ("f32", "tensor", "i64", (3,)))
+] + [
+    {"cat": "umethod", "name": f"{u}.{m}", "route": "np", "operands": [od("tensor", dt, (2, 3), const=c)],
+     "args": [], "kwargs": kw, "track": "both"}
+    for u, c, dts in (("logical_and", None, ("bool", "f64")), ("logical_or", None, ("bool", "i32")), ("logical_xor", None, ("bool",)),
+                      ("floor_divide", True, ("i32", "f64")), ("remainder", True, ("i64",)))
+    for dt in dts
+    for m in ("reduce", "accumulate")
+    for kw in ({}, {"axis": 1})
+] + [
+    # a 0-d operand reduced over an explicit integer axis (NumPy accepts axis 0 / -1 for sum, prod, max, min)
+    {"cat": "reduction", "name": nm, "route": rt, "operands": [od("tensor", dt, (), fill=3)], "args": [],
+     "kwargs": dict({"axis": ax}, **({"keepdims": True} if kd else {})), "track": "both"}
+    for nm in ("sum", "prod", "max", "min", "amax", "amin", "mean", "var", "std", "cumsum", "cumprod")
+    for rt in (("func", "method", "np") if nm not in ("amax", "amin") else ("func", "np"))
+    for dt in ("f64", "i32")
+    for ax in (0, -1)
+    for kd in ((False, True) if not nm.startswith("cum") else (False,))
 ]
 
 
